@@ -303,8 +303,8 @@ func (e *renv) singleMutsV2(r *Rng, x *mctxV2, isAck bool) []mutV2 {
 			mutV2{"acks-extend-new", func(m *v2msg) { m.acks = append(m.acks, []byte("extra")) }},
 			mutV2{"acks-empty", func(m *v2msg) { m.acks = nil }},
 			mutV2{"acks-empty-element", func(m *v2msg) { m.acks[0] = nil }},
-			mutV2{"acks-error", func(m *v2msg) { m.acks = [][]byte{channeltypesv2.ErrorAcknowledgement[:]} }},
-			mutV2{"acks-error-in-list", func(m *v2msg) { m.acks = append(m.acks, channeltypesv2.ErrorAcknowledgement[:]) }},
+			mutV2{"acks-error", func(m *v2msg) { m.acks = [][]byte{append([]byte{}, channeltypesv2.ErrorAcknowledgement[:]...)} }},
+			mutV2{"acks-error-in-list", func(m *v2msg) { m.acks = append(m.acks, append([]byte{}, channeltypesv2.ErrorAcknowledgement[:]...)) }},
 			mutV2{"acks-merge", func(m *v2msg) {
 				// the boundary between two app acknowledgements moved: same concatenation, different list
 				if len(m.acks) >= 2 {
@@ -317,7 +317,13 @@ func (e *renv) singleMutsV2(r *Rng, x *mctxV2, isAck bool) []mutV2 {
 		)
 		if x.otherAcks != nil {
 			oa := x.otherAcks
-			ms = append(ms, mutV2{"acks-other", func(m *v2msg) { m.acks = oa }})
+			ms = append(ms, mutV2{"acks-other", func(m *v2msg) {
+				// deep copy: later mutations of the message must not reach the recorded ground truth
+				m.acks = make([][]byte, len(oa))
+				for i, a := range oa {
+					m.acks[i] = append([]byte{}, a...)
+				}
+			}})
 		}
 	} else {
 		ms = append(ms, mutV2{"proof-key-ack", func(m *v2msg) {
